@@ -886,3 +886,65 @@ def sp_is_del(ex, e, st):
 SPEC["is_subst"] = sp_is_subst
 SPEC["is_ins"] = sp_is_ins
 SPEC["is_del"] = sp_is_del
+
+
+def _use_ind4(ex):
+    if not getattr(ex, "_ind4_on", False):
+        ex._ind4_on = True
+        ex.axioms += specz3.ind4_axioms()
+
+
+def sp_arc_row(ex, e, st):
+    """arc_row(m, acc, v): row v of the matrix m is the 0/1 indicator of the (at most four) arc targets in row v of the accessor (-1 entries denote no
+    arc and are never a column): an equality of whole rows, ind4 is defined point-wise."""
+    m, acc = _mat(ex.ev(e.args[0], st)), _mat(ex.ev(e.args[1], st))
+    v = _int(ex.ev(e.args[2], st))
+    _use_ind4(ex)
+    return m.arr2[v] == specz3.ind4(acc.at(v, 0), acc.at(v, 1), acc.at(v, 2), acc.at(v, 3))
+
+
+def sp_zero_row(ex, e, st):
+    m = _mat(ex.ev(e.args[0], st))
+    v = _int(ex.ev(e.args[1], st))
+    return m.arr2[v] == z3.K(z3.IntSort(), iv(0))
+
+
+SPEC["arc_row"] = sp_arc_row
+SPEC["zero_row"] = sp_zero_row
+
+
+def sp_arc_rows(ex, e, st):
+    """arc_rows(m, acc, lo, hi): for lo <= v < hi and every column w of m: m[v][w] == 1 if w is one of the four entries of accessor row v else 0."""
+    m, acc = _mat(ex.ev(e.args[0], st)), _mat(ex.ev(e.args[1], st))
+    lo, hi = _int(ex.ev(e.args[2], st)), _int(ex.ev(e.args[3], st))
+    v, w = z3.Int("v#ar"), z3.Int("w#ar")
+    hit = z3.Or(*[acc.at(v, j) == w for j in range(4)])
+    from pyvc.sym import qforall
+    return qforall([v, w], z3.Implies(z3.And(lo <= v, v < hi, 0 <= w, w < m.cols), m.arr2[v][w] == z3.If(hit, iv(1), iv(0))), [m.arr2[v][w]])
+
+
+def sp_zero_rows(ex, e, st):
+    m = _mat(ex.ev(e.args[0], st))
+    lo, hi = _int(ex.ev(e.args[1], st)), _int(ex.ev(e.args[2], st))
+    v, w = z3.Int("v#zr"), z3.Int("w#zr")
+    from pyvc.sym import qforall
+    return qforall([v, w], z3.Implies(z3.And(lo <= v, v < hi, 0 <= w, w < m.cols), m.arr2[v][w] == 0), [m.arr2[v][w]])
+
+
+SPEC["arc_rows"] = sp_arc_rows
+SPEC["zero_rows"] = sp_zero_rows
+
+
+def sp_legal_rows(ex, e, st):
+    """legal_rows(m, k, lo, hi): in rows lo..hi-1 of the square 0/1 matrix m every 1 sits in a column that is a shift successor of its row (order k)."""
+    m = _mat(ex.ev(e.args[0], st))
+    k = _int(ex.ev(e.args[1], st))
+    lo, hi = _int(ex.ev(e.args[2], st)), _int(ex.ev(e.args[3], st))
+    _use_succ(ex)
+    v, w = z3.Int("v#lr"), z3.Int("w#lr")
+    from pyvc.sym import qforall
+    ok = z3.Or(*[w == specz3.succ4(v, iv(j), k) for j in range(4)])
+    return qforall([v, w], z3.Implies(z3.And(lo <= v, v < hi, 0 <= w, w < m.cols, m.arr2[v][w] == 1), ok), [m.arr2[v][w]])
+
+
+SPEC["legal_rows"] = sp_legal_rows
